@@ -190,10 +190,13 @@ def skeleton(e, depth=3):
 
 # ---------------------------------------------------------------- C01 per-expression
 
-def judge_meaning(e, cfg, case, depth=0):
-    """Return (status, violations). status: ok / unsupported / crash / mismatch"""
+def judge_meaning(e, cfg, case, depth=0, deep=False):
+    """Return (status, violations). status: ok / unsupported / crash / mismatch
+    deep: also judge every rewrite (rule, before, after) seen while simplifying e; the `before` of a
+    non-equivalent rewrite is fed back as an additional end-to-end input (thorough tier)."""
     try:
-        r = run_simp(cfg, e, tracing=False)
+        r = run_simp(cfg, e, tracing=deep)
+        pairs = list(_setup()["trace"]) if deep else []
     except Budget:
         return "budget", []      # termination is the business of C02
     except RecursionError:
@@ -213,7 +216,25 @@ def judge_meaning(e, cfg, case, depth=0):
     except refsem.Unsupported:
         return "unsupported", []
     if w is None:
-        return "ok", []
+        extra = []
+        if deep and depth == 0:
+            st = _setup()
+            for name, b, a in pairs:
+                key = (b, a)
+                if key in st["judged"]:
+                    continue
+                st["judged"].add(key)
+                try:
+                    bad = b.size != a.size or differ(b, a) is not None
+                except refsem.Unsupported:
+                    continue
+                if bad:
+                    st["rule_level_inconsistencies"] = st.get("rule_level_inconsistencies", 0) + 1
+                    sub = dict(case)
+                    sub["expr"] = repr(b)
+                    sub["index"] = -1
+                    extra += judge_meaning(b, cfg, sub, depth=1)[1]
+        return "ok", extra
     # attribute: re-run with tracing, find the first rewrite that is not an equivalence
     rule, before, after = "unattributed", e, r
     try:
@@ -376,7 +397,8 @@ def families(tier):
 
 
 def shard_worker(args):
-    mode, fam, params, idx, nsh = args
+    mode, fam, params, idx, nsh = args[:5]
+    deep = len(args) > 5 and args[5]
     st = _setup()
     n = nt = 0
     status = {}
@@ -395,7 +417,7 @@ def shard_worker(args):
         for cfg in CONFIGS:
             case = {"fam": fam, "params": params, "index": i, "cfg": cfg, "expr": repr(e)}
             if mode == "meaning":
-                s, v = judge_meaning(e, cfg, case)
+                s, v = judge_meaning(e, cfg, case, deep=deep)
             else:
                 s, v = judge_fixpoint(e, cfg, case)
                 if s == "changed":
@@ -417,6 +439,7 @@ def shard_worker(args):
             if sample is None and i > 50:
                 sample = {"family": fam, "index": i, "expr": str(e)}
     return {"n": n, "nt": nt, "status": status, "vs": vs, "sample": sample, "fired": dict(st["fired"]),
+            "rule_pairs_judged": len(st["judged"]), "rule_level_inconsistencies": st.get("rule_level_inconsistencies", 0),
             "rules": sorted(st["all_rules"])}
 
 
@@ -425,13 +448,13 @@ def run(ctx, mode):
     fams = families(ctx.tier)
     for fam, params, nsh in fams:
         for i in range(nsh):
-            shards.append((mode, fam, params, i, nsh))
+            shards.append((mode, fam, params, i, nsh, ctx.tier == "thorough"))
     res = ctx.pmap(shard_worker, shards)
     fired = {}
     rules = set()
     status = {}
     per_family = {}
-    for (m, fam, params, i, nsh), r in zip(shards, res):
+    for (m, fam, params, i, nsh, _deep), r in zip(shards, res):
         ctx.add_violations(r["vs"])
         rules.update(r["rules"])
         for k, v in r["status"].items():
@@ -452,6 +475,8 @@ def run(ctx, mode):
         "per_family_expressions": per_family,
         "rules_fired_at_least": fired,
         "rules_never_fired": never,
+        "rule_level_rewrites_judged(max per worker)": max([r.get("rule_pairs_judged", 0) for r in res] + [0]),
+        "rule_level_inconsistencies(max per worker)": max([r.get("rule_level_inconsistencies", 0) for r in res] + [0]),
         "samples": [r["sample"] for r in res if r["sample"]][:6],
         "exhaustive": True,
         "bounds": {"families": [[f, repr(p)] for f, p, _ in fams], "step_budget": STEP_BUDGET,
